@@ -123,9 +123,23 @@ pub type Key = [u64; 4];
 struct Slot {
     what: Key,
     since: Option<Instant>,
+    /// CPU time of the process (clock ticks) when the call started — used instead of wall time
+    /// when the process runs its cases on one thread, so that a loaded machine cannot fake a hang
+    since_cpu: u64,
+}
+
+/// user + system CPU time of this process in clock ticks (100 per second on Linux)
+pub fn proc_cpu_ticks() -> u64 {
+    let Ok(s) = std::fs::read_to_string("/proc/self/stat") else { return 0 };
+    let Some(i) = s.rfind(')') else { return 0 };
+    let f: Vec<&str> = s[i + 1..].split_whitespace().collect();
+    // after the command name: state is field 0, utime field 11, stime field 12
+    let g = |k: usize| f.get(k).and_then(|x| x.parse::<u64>().ok()).unwrap_or(0);
+    g(11) + g(12)
 }
 
 pub struct Watch {
+    cpu: bool,
     slots: Arc<Vec<Mutex<Slot>>>,
     pub hung: Arc<AtomicBool>,
     pub calls: AtomicU64,
@@ -136,17 +150,29 @@ impl Watch {
     /// it must flush whatever the caller wants to keep; the process then exits with code 0
     /// (the HANG record in the output is what the check reports)
     pub fn start(threads: usize, limit: Duration, on_hang: Box<dyn Fn(Key) + Send>) -> Arc<Watch> {
-        let slots = Arc::new((0..threads).map(|_| Mutex::new(Slot { what: [0; 4], since: None })).collect::<Vec<_>>());
-        let w = Arc::new(Watch { slots: slots.clone(), hung: Arc::new(AtomicBool::new(false)), calls: AtomicU64::new(0) });
+        Self::start_mode(threads, limit, false, on_hang)
+    }
+
+    /// `cpu = true`: the limit is CPU time of the process (single-threaded case runners)
+    pub fn start_mode(threads: usize, limit: Duration, cpu: bool, on_hang: Box<dyn Fn(Key) + Send>) -> Arc<Watch> {
+        let slots = Arc::new((0..threads).map(|_| Mutex::new(Slot { what: [0; 4], since: None, since_cpu: 0 })).collect::<Vec<_>>());
+        let w = Arc::new(Watch { cpu, slots: slots.clone(), hung: Arc::new(AtomicBool::new(false)), calls: AtomicU64::new(0) });
         let hung = w.hung.clone();
         std::thread::spawn(move || {
             loop {
                 std::thread::sleep(Duration::from_millis(100));
                 let mut found = None;
+                let now_cpu = if cpu { proc_cpu_ticks() } else { 0 };
                 for sl in slots.iter() {
                     let sl = sl.lock().unwrap();
                     if let Some(t) = sl.since {
-                        if t.elapsed() > limit {
+                        let over = if cpu {
+                            // 100 ticks per second; wall time must have passed as well
+                            t.elapsed() > limit && now_cpu.saturating_sub(sl.since_cpu) > limit.as_secs() * 100
+                        } else {
+                            t.elapsed() > limit
+                        };
+                        if over {
                             found = Some(sl.what);
                         }
                     }
@@ -166,6 +192,9 @@ impl Watch {
             let mut s = self.slots[thread].lock().unwrap();
             s.what = what;
             s.since = Some(Instant::now());
+            if self.cpu {
+                s.since_cpu = proc_cpu_ticks();
+            }
         }
         self.calls.fetch_add(1, Ordering::Relaxed);
         LAST.with(|l| *l.borrow_mut() = None);
@@ -183,4 +212,56 @@ impl Watch {
             }
         }
     }
+}
+
+/// Greedy delta-debugging of a text: drop chunks of lines, then chunks of tokens, as long as
+/// `still_fails` holds; at most `budget` predicate calls.
+pub fn shrink_text(src: &str, still_fails: &mut dyn FnMut(&str) -> bool, budget: usize) -> String {
+    let mut best = src.to_string();
+    let mut calls = 0usize;
+    // lines
+    let mut chunk = best.lines().count().max(1) / 2;
+    while chunk >= 1 && calls < budget {
+        let mut i = 0;
+        loop {
+            let lines: Vec<&str> = best.lines().collect();
+            if i >= lines.len() || calls >= budget {
+                break;
+            }
+            let j = (i + chunk).min(lines.len());
+            let cand: String = lines[..i].iter().chain(lines[j..].iter()).map(|l| format!("{}\n", l)).collect();
+            calls += 1;
+            if cand.len() < best.len() && still_fails(&cand) {
+                best = cand;
+            } else {
+                i += chunk;
+            }
+        }
+        chunk /= 2;
+    }
+    // tokens
+    let mut chunk = 16usize;
+    while chunk >= 1 && calls < budget {
+        let mut i = 0;
+        loop {
+            let toks: Vec<(usize, usize)> = lexer::lex(&best)
+                .iter()
+                .filter(|t| !t.kind.is_trivia())
+                .map(|t| (u32::from(t.range.start()) as usize, u32::from(t.range.end()) as usize))
+                .collect();
+            if i >= toks.len() || calls >= budget {
+                break;
+            }
+            let j = (i + chunk).min(toks.len());
+            let cand = format!("{}{}", &best[..toks[i].0], &best[toks[j - 1].1..]);
+            calls += 1;
+            if still_fails(&cand) {
+                best = cand;
+            } else {
+                i += chunk.max(1);
+            }
+        }
+        chunk /= 2;
+    }
+    best
 }
